@@ -6,6 +6,7 @@ proofs in Lemmas/Doc.lean).  Every `theorem` here is a counted obligation.
 import EzdxfVerif.Lemmas.Doc
 import EzdxfVerif.Lemmas.DocOwner
 import EzdxfVerif.Lemmas.DocEffects
+import EzdxfVerif.Lemmas.DocReload
 
 namespace EzdxfVerif.Props.C05
 open EzdxfVerif.Doc
@@ -69,6 +70,40 @@ theorem spec_delete (s : State) (k e : Nat) (s1 : State) (h : unlinkCore s k e =
 theorem spec_purge (s : State) (k : Nat) : content (step s .purge).1 k = content s k :=
   Doc.spec_purge s k
 
+/-- `layout.add_entity(e)` accepted: `e` was alive, is appended to this layout, other layouts unchanged -/
+theorem spec_add_entity (s : State) (k e : Nat) (hok : (step s (.addex k e)).2 = .ok) :
+    isAlive s e = true ∧ content (step s (.addex k e)).1 k = content s k ++ [e] ∧
+    ∀ k', k' ≠ k → content (step s (.addex k e)).1 k' = content s k' := Doc.spec_addex s k e hok
+
+/-- `layout.move_to_layout(e, target)` accepted: `e` leaves the source, is appended to the target, all other
+    layouts and blocks show what they showed -/
+theorem spec_move (s : State) (k1 e k2 : Nat) (hne : k1 ≠ k2) (hok : (step s (.move k1 e k2)).2 = .ok) :
+    content (step s (.move k1 e k2)).1 k1 = (content s k1).erase e ∧
+    content (step s (.move k1 e k2)).1 k2 = content s k2 ++ [e] ∧
+    ∀ k', k' ≠ k1 → k' ≠ k2 → content (step s (.move k1 e k2)).1 k' = content s k' :=
+  Doc.spec_move s k1 e k2 hne hok
+
+/-- in every reachable state a live entity is stored in the entity database (no history, however it mixes
+    destroy / purge / reload, leaves a live entity outside the database) -/
+theorem live_in_database (s : State) (ops : List Op) (hd : DbInv s) : DbInv (run s ops) :=
+  Doc.db_inv_reachable s ops hd
+
+/-- `doc.write()` + `ezdxf.read()` in a reachable state: every layout and block shows exactly what it showed
+    (same handles, same order) -/
+theorem spec_reload (s : State) (seed : Nat) (ho : OwnerInv s) (hd : DbInv s) (hseed : s.next ≤ seed) (k : Nat) :
+    (step s (.reload seed)).2 = .ok ∧ content (step s (.reload seed)).1 k = content s k :=
+  Doc.spec_reload s seed ho hd hseed k
+
+/-- a second save/load cycle changes nothing further (state equality field by field; the handle generator
+    takes the value stored in the second file) -/
+theorem reload_twice (s : State) (seed seed2 : Nat) (ho : OwnerInv s) (hd : DbInv s) (hseed : s.next ≤ seed)
+    (hseed2 : seed ≤ seed2) :
+    let s1 := (step s (.reload seed)).1
+    let s2 := (step s1 (.reload seed2)).1
+    (step s1 (.reload seed2)).2 = .ok ∧ s2.ents = s1.ents ∧ s2.spaces = s1.spaces ∧ s2.blocks = s1.blocks ∧
+      s2.layouts = s1.layouts ∧ s2.layers = s1.layers ∧ s2.next = seed2 :=
+  Doc.reload_twice s seed seed2 ho hd hseed hseed2
+
 /-! ### non-vacuity: the state of a fresh `ezdxf.new()` document, and a history on it -/
 
 def fresh : State :=
@@ -82,10 +117,18 @@ example : DocInv fresh := by
 example : OwnerInv fresh := by
   simp [OwnerInv, fresh]
 
+example : DbInv fresh := by
+  simp [DbInv, fresh]
+
 example : HistOk fresh [.add 23 47 48, .unlink 23 47, .addex 27 47] := by
   simp [HistOk, OpOk, step, newEnt, unlinkCore, spaceOf, freshOk, fresh, isAlive, findEnt, setSpace, allH, setEnt]
 
 #guard (run fresh [.add 23 47 48, .add 27 48 49, .move 27 48 23, .destroy 47, .newBlock (ofString "B1") 49 52,
     .copy 48 49 52 53, .purge, .del 23 48]).spaces == [(23, []), (27, []), (49, [52])]
+
+-- move is accepted on a reachable state, and an unlinked entity does not come back from a reload
+#guard (step (run fresh [.add 23 47 48, .add 27 48 49]) (.move 27 48 23)).2 == .ok
+#guard content (run fresh [.add 23 47 48, .add 23 48 49, .unlink 23 47, .reload 60]) 23 == [48]
+#guard isAlive (run fresh [.add 23 47 48, .add 23 48 49, .unlink 23 47, .reload 60]) 47 == false
 
 end EzdxfVerif.Props.C05
